@@ -257,10 +257,14 @@ class Analyzer(ExprMixin):
             params = []
             for pn, st in d.params:
                 e = self.lookup(st.mark)
+                if e.kind not in ("type", "utype"):
+                    raise TypeErr(f"parameter type '{st.mark}' denotes a {e.kind}", "hidden-predefined" if st.mark in ALL_PREDEF_NAMES else "type")
                 if e.kind != "type" or e.ty is None:
                     raise Unsupported("function parameter of unconstrained/unsupported type")
                 params.append((pn, e.ty))
             r = self.lookup(d.ret)
+            if r.kind not in ("type", "utype"):
+                raise TypeErr(f"return type '{d.ret}' denotes a {r.kind}", "hidden-predefined" if d.ret in ALL_PREDEF_NAMES else "type")
             if r.kind != "type" or r.ty is None:
                 raise Unsupported("function return type")
         except TypeErr as ex:
@@ -694,6 +698,13 @@ class Analyzer(ExprMixin):
     def run(self):
         ent = self.ent
         archs = self.b.archs.get(self.ent_name, [])
+        if len(archs) == 0:
+            orphans = [f"{a.raw} of {a.entity}" for al in self.b.archs.values() for a in al if a.entity not in self.b.entities]
+            self.finding("unresolved", f"entity {self.ent.raw} has no architecture in the design file"
+                         + (f"; architecture(s) of unknown entities: {orphans}" if orphans else ""), self.ent.line)
+            self.top_ports = {}
+            self.top_port_order = [(p.name, p.mode, p.raw) for p in ent.ports]
+            return
         if len(archs) != 1:
             raise Unsupported(f"entity {self.ent_name} has {len(archs)} architectures")
         arch = archs[0]
